@@ -126,6 +126,7 @@ func main() {
 			plan := rh.RacePlan(seed, i)
 			fmt.Fprintf(os.Stderr, "RACEPLAN %d %s\n", i, string(compact(plan)))
 			res := runner.ExecOne(h, plan)
+			fmt.Fprintf(os.Stderr, "RACEPLAN-STATS %d switches=%d ops=%d\n", i, res.Stats.Probes["task_switches"], res.Stats.Ops)
 			if res.Violation != nil {
 				fmt.Fprintf(os.Stderr, "RACEPLAN-VIOLATION %d %s\n", i, res.Violation.Class())
 			}
